@@ -92,6 +92,7 @@ type interpreter struct {
 	funcs     map[string]int64
 	curV      uint64
 	fmtDepth  int
+	fmtRaw    bool // the argument being converted is consumed by a verb that ignores String/Error
 	lastDump  int
 	vfsFiles  map[string]*vfsEntry
 	frozen    map[*value]bool
